@@ -361,6 +361,7 @@ def run_t8_t9(chk, repo):
     run_t11(chk, repo)
     run_t12(chk, repo)
     run_t13_t14(chk, repo)
+    run_t15_t16(chk, repo)
 
 
 def run_t10(chk, repo):
@@ -613,3 +614,99 @@ def run_t13_t14(chk, repo):
                                       'is True')
     if n14 == 0:
         raise AnalysisError('T14: has_lag_time(model) not found in get_model_features')
+
+
+def run_t15_t16(chk, repo):
+    """Reversibility: undoing a structural feature leaves no definition behind.
+    T15: remove_peripheral_compartment cleans up the symbols of BOTH flows of the removed compartment (into it and out of it):
+    with rate-constant coding (K12 / K21, TRANS1) the two flows share no symbol.
+    T16: add_lag_time on a model that already has a lag time cleans up the OLD lag time: the value it cleans up is read from the
+    dose compartment as it was before set_lag_time replaced it"""
+    from sa import reach
+    from sa.cfg import CFG
+    om = repo.module('pharmpy.modeling.odes')
+    T15 = chk.rule('T15', 'remove_peripheral_compartment: the symbols handed to remove_symbol_definitions come from the flow into '
+                          'the removed compartment and from the flow out of it', floor=1)
+    f = om.functions.get('remove_peripheral_compartment')
+    if f is None:
+        raise AnalysisError('T15: remove_peripheral_compartment not found')
+    cfg = CFG(f.node)
+    n = 0
+    for nd in cfg.nodes.values():
+        if nd.ast is None or nd.kind != 'stmt':
+            continue
+        for c in [c for c in ast.walk(nd.ast) if isinstance(c, ast.Call) and isinstance(c.func, ast.Attribute)
+                  and c.func.attr == 'remove_symbol_definitions' and c.args]:
+            rem = [x for m_ in cfg.nodes.values() if m_.ast is not None and m_.kind == 'stmt' and cfg.dominates(m_.id, nd.id)
+                   for x in ast.walk(m_.ast) if isinstance(x, ast.Call) and isinstance(x.func, ast.Attribute)
+                   and x.func.attr == 'remove_compartment' and x.args]
+            if not rem:
+                continue
+            comp = unparse(rem[-1].args[0])
+            # everything the symbol set is computed from: follow the local back through its (possibly accumulating) definitions
+            texts, todo, seen_ = [], [(nd.id, c.args[0])], set()
+            while todo:
+                nid_, e_ = todo.pop()
+                texts.append(unparse(e_))
+                for x in ast.walk(e_):
+                    if isinstance(x, ast.Name) and (nid_, x.id) not in seen_:
+                        seen_.add((nid_, x.id))
+                        for i_, v_ in (reach.values(cfg, nid_, x.id) or []):
+                            todo.append((i_, v_))
+                        # loop variables: `for _, rate in odes.get_compartment_outflows(C)`
+                        for L in [l_ for l_ in ast.walk(f.node) if isinstance(l_, ast.For)]:
+                            if any(isinstance(t, ast.Name) and t.id == x.id for t in ast.walk(L.target)):
+                                texts.append(unparse(L.iter))
+            into = any(f'get_flow(' in t and t.split('get_flow(')[1].split(')')[0].split(',')[-1].strip() == comp for t in texts) \
+                or any(f'get_compartment_inflows({comp})' in t or f'get_bidirectionals({comp})' in t for t in texts)
+            outof = any(f'get_flow({comp},' in t for t in texts) or any(
+                f'get_compartment_outflows({comp})' in t or f'get_bidirectionals({comp})' in t for t in texts)
+            n += 1
+            chk.instance(T15, f'remove_peripheral_compartment: cleanup of {comp}: flow into it {into}, flow out of it {outof}')
+            if not (into and outof):
+                chk.violation(T15, om.rel, f.qualname, unparse(c)[:80],
+                              f'only the flow {"out of" if outof else "into"} `{comp}` contributes the symbols that are cleaned '
+                              f'up: the rate of the other direction (and its parameter) stays defined in the model',
+                              line=c.lineno,
+                              witness='a model coded with rate constants (ADVAN3 TRANS1): add_peripheral_compartment then '
+                                      'remove_peripheral_compartment leaves KCP1 / POP_KCP1 behind')
+    if n == 0:
+        raise AnalysisError('T15: the cleanup after remove_compartment was not found in remove_peripheral_compartment')
+
+    T16 = chk.rule('T16', 'add_lag_time: the lag time that is cleaned up is read from the dose compartment before set_lag_time '
+                          'replaced it', floor=1)
+    g = om.functions.get('add_lag_time')
+    if g is None:
+        raise AnalysisError('T16: add_lag_time not found')
+    gcfg = CFG(g.node)
+    n = 0
+    for nd in gcfg.nodes.values():
+        if nd.ast is None or nd.kind != 'stmt':
+            continue
+        for c in [c for c in ast.walk(nd.ast) if isinstance(c, ast.Call) and isinstance(c.func, ast.Attribute)
+                  and c.func.attr == 'remove_symbol_definitions' and c.args]:
+            # the reads `<comp>.lag_time` the first argument is computed from
+            todo, seen_, reads = [(nd.id, c.args[0])], set(), []
+            while todo:
+                nid_, e_ = todo.pop()
+                for x in ast.walk(e_):
+                    if isinstance(x, ast.Attribute) and x.attr == 'lag_time' and isinstance(x.value, ast.Name):
+                        reads.append((nid_, x))
+                    if isinstance(x, ast.Name) and (nid_, x.id) not in seen_:
+                        seen_.add((nid_, x.id))
+                        for i_, v_ in (reach.values(gcfg, nid_, x.id) or []):
+                            todo.append((i_, v_))
+            for nid_, r in reads:
+                defs = reach.values(gcfg, nid_, r.value.id) or []
+                new = [v_ for _i, v_ in defs if isinstance(v_, ast.Call) and isinstance(v_.func, ast.Attribute)
+                       and v_.func.attr == 'set_lag_time']
+                n += 1
+                chk.instance(T16, f'add_lag_time: cleans up `{unparse(r)}` read before the replacement: {not new}')
+                if new:
+                    chk.violation(T16, om.rel, g.qualname, f'{unparse(r)} after {unparse(new[0])[:50]}',
+                                  f'`{r.value.id}` is already the compartment returned by set_lag_time: its lag time is the NEW '
+                                  f'one, the definitions of the old lag time are never removed', line=r.lineno,
+                                  witness='add_lag_time on a model that has a lag time: two ALAG1 assignments, a left-over MDT '
+                                          'statement and an extra POP_MDT parameter')
+    if n == 0:
+        raise AnalysisError('T16: the cleanup of the previous lag time was not found in add_lag_time')
